@@ -32,7 +32,9 @@ for d in sorted(os.listdir(os.path.join(ROOT, "seeded"))):
     what = (meta.get("what_breaks") or "").replace("\n", " ")
     needs = (meta.get("needs_to_manifest") or "").replace("\n", " ")
     esc = lambda t: t.replace("|", "/")
-    rows.append((d, esc(what[:160]), esc(needs[:140]), verdict, esc(res.split("\n")[0][:160]) if res else ""))
+    vl = [l for l in res.split("\n") if "VIOLATION" in l]
+    detail = (vl[0] if vl else res.split("\n")[0]) if res else ""
+    rows.append((d, esc(what[:160]), esc(needs[:140]), verdict, esc(detail[:160])))
 print("| change | what it breaks | needs | verdict of `./check` | detail |")
 print("|---|---|---|---|---|")
 for r in rows:
